@@ -8,7 +8,8 @@ import WacModel.GraphProto
     SPEC   the implementation panicked although every identifier of the call was live;
            the hook reported a violated invariant; the executable invariant `Inv` is false on
            the state the implementation reported; a query panicked / does not reflect the
-           reported state; `encode` panicked;
+           reported state; `encode` panicked; the documented effect of a successful call
+           (argument set / unset, node exported / removed) is missing from the reported state;
     MODEL  result or reported state differs from the Lean model's.
 -/
 namespace Wac.GraphJudge
@@ -115,6 +116,28 @@ def cmpState (gm : Graph) (o : Obs) : Option String :=
       else if gm.freePkgs.reverse != o.freePkgs then some s!"free packages model={gm.freePkgs.reverse} impl={o.freePkgs}"
       else none
 
+/-- SPEC: documented postcondition of a SUCCESSFUL call, evaluated on the state the implementation
+reports after it (from the method documentation: "sets / unsets the argument", "exports the node
+under the name", "removes the node"; not derived from the code) -/
+def effectVerdict (g' : Graph) (op : Op) : Option String :=
+  match op with
+  | .setArg i n a =>
+    match getInstantiationArguments g' i with
+    | .ok l =>
+      if l.contains (n, a) then none
+      else some s!"after the successful call node {a} is not passed as argument {showStr n} of {i}"
+    | .error _ => none
+  | .unsetArg i n a =>
+    match getInstantiationArguments g' i with
+    | .ok l =>
+      if l.contains (n, a) then some s!"after the successful call node {a} is still passed as argument {showStr n} of {i}"
+      else none
+    | .error _ => none
+  | .exportNode n e =>
+    if getExport g' e == some n then none else some s!"after the successful call {showStr e} is not an export of node {n}"
+  | .removeNode n => if g'.live n then some s!"after the successful call node {n} is still live" else none
+  | _ => none
+
 /-- package ids mentioned by a call -/
 def opPkgIds : Op → List PkgId
   | .unregister id | .instantiate id => [id]
@@ -179,7 +202,12 @@ def judgeSteps (t : Tables) : Nat → Nat → Graph → Option Graph → List Pk
                 else match queriesOf t g' o.bound with
                   | .error e => some s!"query specification not evaluable on the reported state: {e}"
                   | .ok m => (cmpQueries q m).map (fun d => "queries do not reflect the reported state: " ++ d)
-      match staleVerdict.orElse (fun _ => docVerdict.orElse (fun _ => stateVerdict)) with
+      -- SPEC: the documented effect of a successful call is visible in the reported state
+      let effVerdict : Option String :=
+        match obs, io with
+        | some o, .ok _ => (effectVerdict o.toGraph op).map (fun d => "documented effect missing: " ++ d)
+        | _, _ => none
+      match staleVerdict.orElse (fun _ => docVerdict.orElse (fun _ => stateVerdict.orElse (fun _ => effVerdict))) with
       | some v => pure s!"SPEC\tstep {k} {showOp op}: {v}"
       | none =>
         if mo != io then pure s!"MODEL\tstep {k}: {showOp op} impl={showOutcome io} model={showOutcome mo}"
